@@ -362,7 +362,7 @@ Definition ready_ok (s : st) (op : word) (chunk : list word) : bool :=
    failed) only by publishing TRANSIENT_FAILURE in that operation.
    clause 5 (no silent all-failed state): a running pass is never left with the list exhausted
    and every active sub-channel's latest state TRANSIENT_FAILURE unless TRANSIENT_FAILURE is
-   published in that operation.  (Before 5362b94 ExitIdle could start a pass with the cursor
+   published in that operation (C34_no_silent_all_failed).  (Before 5362b94 ExitIdle could start a pass with the cursor
    not at the first address, the ghost flag midstart; such a pass never ended.) *)
 Definition all_failed (s : st) : bool :=
   negb (al_valid s) && negb (match subs s with [] => true | _ => false end) &&
@@ -450,10 +450,6 @@ Fixpoint clauses_from (s : st) (ops obs : list word) (i : Z) : list (Z * Z * boo
 Definition clauses (ops obs : list word) : list (Z * Z * bool) := clauses_from init ops obs 0.
 
 Definition holds_b (ops obs : list word) : bool := forallb (fun c => snd c) (clauses ops obs).
-
-(* every clause but 5 (evaluated on every trace, not proved of the model) *)
-Definition holds_proved (ops obs : list word) : bool :=
-  forallb (fun c => (fst (fst c) =? 5) || snd c) (clauses ops obs).
 
 Definition check_case (c : case) : verdict :=
   decide (run (c_ops c)) (c_obs c) (clauses (c_ops c) (c_obs c)).
